@@ -431,6 +431,23 @@ def branch_conditions(cfg: CFG, target: int) -> list[tuple[ast.AST, bool]]:
     return out
 
 
+def atomic_conditions(cfg: CFG, target: int) -> list[tuple[ast.AST, bool]]:
+    """branch_conditions with `A and B` (true) and `A or B` (false) split into their operands, recursively; an operand
+    that is itself a test keeps its form (a leading `not` is not stripped)"""
+    out: list[tuple[ast.AST, bool]] = []
+
+    def split(t: ast.AST, val: bool) -> None:
+        if isinstance(t, ast.BoolOp) and ((isinstance(t.op, ast.And) and val) or (isinstance(t.op, ast.Or) and not val)):
+            for v in t.values:
+                split(v, val)
+        else:
+            out.append((t, val))
+
+    for t, val in branch_conditions(cfg, target):
+        split(t, val)
+    return out
+
+
 def _reaches_avoiding(cfg: CFG, src: int, dst: int, avoid: int) -> bool:
     if src == avoid:
         return False
